@@ -85,6 +85,12 @@ def main():
         print("BUILD-ERROR: harness does not build against /repo: %s" % str(e)[-1500:])
         return 2
 
+    if getattr(spec, "needs_extract", False):
+        try:
+            props.run_extract()
+        except core.BuildError as e:
+            print("BUILD-ERROR: the names extractor failed on /repo: %s" % str(e)[-1500:])
+            return 2
     po = proof_obligations(spec)
     rng = core.Rng(seed)
     if args.replay:
